@@ -287,6 +287,11 @@ fn scan<F: Family>(fam: Arc<F>, cfg: &LaneCfg, known: &super::known::Known) -> (
     let survey = cfg.survey;
     let collect_hashes = cfg.collect_hashes;
     let part = cfg.part;
+    let announce: Option<(String, String, String)> = if std::env::var("FIBSIM_ANNOUNCE_RUNS").is_ok() && !cfg.replay_dir.is_empty() {
+      Some((format!("{}/{}", cfg.replay_dir, cfg.property), cfg.property.clone(), cfg.lane.clone()))
+    } else {
+      None
+    };
     handles.push(std::thread::spawn(move || {
       use std::cell::RefCell;
       use std::rc::Rc;
@@ -413,6 +418,20 @@ fn scan<F: Family>(fam: Arc<F>, cfg: &LaneCfg, known: &super::known::Known) -> (
             let seed = run_seed(batch_seed, i);
             let mut rng = Rng::new(seed);
             let sc = fam_n.generate(&mut rng);
+            if let Some((dir, prop, lane)) = &announce {
+              // single-worker re-scan after the process died (see main.rs supervise): leave the
+              // scenario about to run behind, so the run that kills the process is known
+              let _ = std::fs::create_dir_all(dir);
+              let path = format!("{}/inflight_{}.json", dir, lane.replace('/', "_"));
+              let doc = json!({
+                "property": prop, "family": fam_n.name(), "lane": lane, "batch_seed": batch_seed, "run_index": i, "run_seed": seed,
+                "violation": {"property": prop, "class": "process_aborted", "facets": {}, "detail": "executing this scenario killed the process"},
+                "scenario": serde_json::to_value(&sc).unwrap_or(Value::Null), "trace_hash": "", "decision_trace": [],
+              });
+              if std::fs::write(&path, serde_json::to_string(&doc).unwrap()).is_ok() {
+                println!("RUNNING lane={lane} index={i} replay={path}");
+              }
+            }
             let cfg = fam_n.begin(&sc, false);
             *cur2.borrow_mut() = Some((i, seed, sc));
             Some(cfg)
@@ -459,10 +478,27 @@ fn post<F: Family>(fam: Arc<F>, cfg: &LaneCfg, known: &super::known::Known, mut 
   for (idx, v, sc) in hits {
     // minimise first: known-finding signatures are computed from the minimised scenario
     let orig = serde_json::to_value(&sc).unwrap();
+    // Code that panics inside a destructor while it is already unwinding aborts the process, and
+    // minimisation re-executes the failing scenario many times: leave the un-minimised scenario
+    // behind first, so the supervising parent process (see main.rs) can still report it.
+    let cand_dir = format!("{}/{}", cfg.replay_dir, cfg.property);
+    let cand_path = format!("{}/candidate_{}_{}.json", cand_dir, cfg.lane.replace('/', "_"), idx);
+    if !cfg.replay_dir.is_empty() {
+      let _ = std::fs::create_dir_all(&cand_dir);
+      let cand = json!({
+        "property": cfg.property, "family": fam.name(), "lane": cfg.lane, "violation": v, "batch_seed": cfg.batch_seed,
+        "run_index": idx, "run_seed": run_seed(cfg.batch_seed, idx), "scenario": orig, "trace_hash": "", "decision_trace": [],
+        "note": "un-minimised candidate written before minimisation; the process died while minimising or re-executing it",
+      });
+      if std::fs::write(&cand_path, serde_json::to_string_pretty(&cand).unwrap()).is_ok() {
+        println!("CANDIDATE property={} class={} replay={}", v.property, v.class, cand_path);
+      }
+    }
     let (min_sc, min_v) = minimise(&*fam, &sc, &v, cfg.shrink_budget);
     let min_val = serde_json::to_value(&min_sc).unwrap();
     let sig = signature(&min_v);
     if !seen_sigs.insert(sig.clone()) {
+      let _ = std::fs::remove_file(&cand_path);
       continue;
     }
     let is_known = known.matches(&min_v);
@@ -498,6 +534,7 @@ fn post<F: Family>(fam: Arc<F>, cfg: &LaneCfg, known: &super::known::Known, mut 
     if std::fs::write(&path, serde_json::to_string_pretty(&replay).unwrap()).is_err() {
       harness_errors.push(format!("cannot write replay file {path}"));
     }
+    let _ = std::fs::remove_file(&cand_path);
     found.push(Found {
       run_index: idx,
       violation: min_v,
